@@ -83,6 +83,9 @@ type replayFile struct {
 	Extra      map[string]interface{} `json:"extra,omitempty"`
 }
 
+// decProps: properties whose contracts use the decimal arithmetic model (theory dec)
+var decProps = map[string]bool{"C03": true, "C04": true, "C05": true, "C07": true, "C12": true, "C13": true, "C15": true, "C16": true}
+
 // scenarioRuns: scenario replays executed in the thorough tier (recorded in the evidence)
 var scenarioRuns []map[string]string
 
@@ -352,6 +355,13 @@ func runCheck(repo, verif, prop, tier string, timeout, par int, keep bool) int {
 			}
 		}
 	}
+	// thorough tier, properties resting on the decimal model: the trusted sdk.Dec / sdk.Int prelude contracts are tested
+	// against the real library on sampled and boundary operands
+	if tier == "thorough" && decProps[prop] {
+		if rc := runConformance(repo, verif, 1000, 30, par); rc != 0 {
+			isBroken = "the trusted sdk.Dec / sdk.Int prelude contracts disagree with the real library (see CONFORMANCE-MISMATCH lines): proofs resting on them are void"
+		}
+	}
 	for _, m := range missing {
 		report(&replayFile{Property: prop, Obligation: m + "#engine:missing", Kind: "engine", Verdict: "engine-error", Output: "obligation " + m + " is part of the committed baseline of this property but was not generated on this tree (contract removed or function renamed)"}, "no-failing-input-found")
 	}
@@ -504,6 +514,9 @@ func writeEvidence(path, prop, tier string, seed int, results []*FuncResult, byS
 	}
 	if brokenMsg != "" {
 		cov["broken"] = brokenMsg
+	}
+	if confSummary != nil {
+		cov["prelude_conformance"] = confSummary
 	}
 	if len(scenarioRuns) > 0 {
 		cov["scenario_replays"] = scenarioRuns // thorough tier: scenarios of discharged obligations replayed on the real code (dynamic cross-check, not proof)
